@@ -32,44 +32,33 @@ theorem gro_coord_specs :
 
 def dotCount (l : List Char) : Nat := (l.filter (· = '.')).length
 
-/-- the points in the residue-name and atom-name columns of the line `write_gro` writes for an atom
-(names cut to their five columns) -/
-def groNameDots (a : Atom) : Nat :=
-  dotCount (renderField ⟨' ', .left, 5, 0, .s, true⟩ (.str (a.resname.getD []))) +
-  dotCount (renderField ⟨' ', .right, 5, 0, .s, true⟩ (.str (a.atomname.getD [])))
-
 /-- **detection of the format, in general.**  On the atom line `write_gro` produces for ANY atom —
-any coordinates, points in the names allowed — followed by anything (`V`: nothing, or the velocity
-fields): `read_gro` searches the two points that give it the column width from column 25 on, i.e.
-inside the coordinate block, and always finds 8 columns; but it decides on velocities by counting
-ALL points of the line, those in the names included. -/
+any coordinates, any names, points in the names included — followed by anything (`V`: nothing, or
+the velocity fields): `read_gro` searches the two points that give it the column width from column
+25 on, i.e. inside the coordinate block, and always finds 8 columns; and it decides on velocities
+by counting the points from column 20 on, i.e. after the four identifier fields: three from the
+coordinates plus those of `V`.  Points in residue or atom names never influence the detection
+(since the repair of F-C16-4; the old rule: `gro_detect_old_rule_witness`). -/
 theorem gro_detect_gen (serial : Nat) (a : Atom) (V : List Char) :
-    (groDetect gro (groLine gro serial a ++ V)).hasVel = decide (groNameDots a + 3 + dotCount V = 6) ∧
+    (groDetect gro (groLine gro serial a ++ V)).hasVel = decide (3 + dotCount V = 6) ∧
     (groDetect gro (groLine gro serial a ++ V)).slices =
-      if groNameDots a + 3 + dotCount V = 6 then groSlicesV 8 else groSlices 8 := by
+      if 3 + dotCount V = 6 then groSlicesV 8 else groSlices 8 := by
   let sd : Spec := ⟨' ', .dflt, 5, 0, .d, true⟩
   let sf : Spec := ⟨' ', .dflt, 8, 3, .f, true⟩
   obtain ⟨T1, F1, h1, hT1, hF1, dT1, dF1⟩ := renderField_fix_shape sf a.x rfl rfl rfl (by decide) (by decide) (by decide)
   obtain ⟨T2, F2, h2, hT2, hF2, dT2, dF2⟩ := renderField_fix_shape sf a.y rfl rfl rfl (by decide) (by decide) (by decide)
   obtain ⟨T3, F3, h3, hT3, hF3, dT3, dF3⟩ := renderField_fix_shape sf a.z rfl rfl rfl (by decide) (by decide) (by decide)
-  let R : List Char := renderField ⟨' ', .left, 5, 0, .s, true⟩ (.str (a.resname.getD []))
-  let N : List Char := renderField ⟨' ', .right, 5, 0, .s, true⟩ (.str (a.atomname.getD []))
-  let A : List Char := renderField sd (.int (a.resid.getD 1)) ++ R ++ N ++ renderField sd (.int serial)
+  let A : List Char := renderField sd (.int (a.resid.getD 1)) ++
+    renderField ⟨' ', .left, 5, 0, .s, true⟩ (.str (a.resname.getD [])) ++
+    renderField ⟨' ', .right, 5, 0, .s, true⟩ (.str (a.atomname.getD [])) ++ renderField sd (.int serial)
   have hA : A.length = 20 := by
-    simp only [A, R, N, List.length_append]
+    simp only [A, List.length_append]
     rw [length_renderField _ _ rfl (by decide), length_renderField _ _ rfl (by decide),
       length_renderField _ _ rfl (by decide), length_renderField _ _ rfl (by decide)]
     rfl
-  have dA : dotCount A = groNameDots a := by
-    have e1 := filter_eq_nil_of_all_ne _ '.' (renderField_all (· ≠ '.') sd (.int (a.resid.getD 1)) (by decide)
-      (intRepr_all_ne '.' (by decide) (by decide) _))
-    have e2 := filter_eq_nil_of_all_ne _ '.' (renderField_all (· ≠ '.') sd (.int serial) (by decide)
-      (intRepr_all_ne '.' (by decide) (by decide) _))
-    simp only [dotCount, groNameDots, A, R, N, List.filter_append, List.length_append, e1, e2, List.length_nil]
-    omega
   have hline : groLine gro serial a = A ++ (T1 ++ '.' :: F1) ++ (T2 ++ '.' :: F2) ++ (T3 ++ '.' :: F3) := by
     rw [← h1, ← h2, ← h3]
-    simp [groLine, gro, groFmt, render, segText, A, R, N, atomEnv, sd, sf]
+    simp [groLine, gro, groFmt, render, segText, A, atomEnv, sd, sf]
   simp only [sf] at hT1 hT2 hT3 hF1 hF2 hF3
   have hd1 : (groLine gro serial a ++ V).drop 25 = (F1 ++ T2) ++ '.' :: (F2 ++ (T3 ++ '.' :: F3) ++ V) := by
     have : groLine gro serial a ++ V = (A ++ T1 ++ ['.']) ++ ((F1 ++ T2) ++ '.' :: (F2 ++ (T3 ++ '.' :: F3) ++ V)) := by
@@ -95,20 +84,27 @@ theorem gro_detect_gen (serial : Nat) (a : Atom) (V : List Char) :
       · simpa using List.all_eq_true.mp dF2 x h
       · simpa using List.all_eq_true.mp dT3 x h)
     rw [this]; simp [hF2, hT3]
-  have hcount : ((groLine gro serial a ++ V).filter (· = '.')).length = groNameDots a + 3 + dotCount V := by
-    rw [List.filter_append, List.length_append, hline, ← dA]
+  -- the part of the line the reader counts: everything after the 20 identifier columns
+  have hd20 : (groLine gro serial a ++ V).drop 20 = (T1 ++ '.' :: F1) ++ (T2 ++ '.' :: F2) ++ (T3 ++ '.' :: F3) ++ V := by
+    have : groLine gro serial a ++ V = A ++ ((T1 ++ '.' :: F1) ++ (T2 ++ '.' :: F2) ++ (T3 ++ '.' :: F3) ++ V) := by
+      rw [hline]; simp
+    rw [this]
+    exact drop_append_len _ _ 20 hA
+  have hcount : (((groLine gro serial a ++ V).drop 20).filter (· = '.')).length = 3 + dotCount V := by
+    rw [hd20]
     simp only [dotCount, List.filter_append, List.filter_cons, decide_true, if_true, List.length_append,
       List.length_cons, filter_eq_nil_of_all_ne _ _ dT1, filter_eq_nil_of_all_ne _ _ dF1,
       filter_eq_nil_of_all_ne _ _ dT2, filter_eq_nil_of_all_ne _ _ dF2, filter_eq_nil_of_all_ne _ _ dT3,
       filter_eq_nil_of_all_ne _ _ dF3, List.length_nil]
     try omega
   have hdot : gro.dotFrom = 25 := rfl
+  have hcf : gro.countFrom = 20 := rfl
   unfold groDetect
-  rw [hdot, hf1, hcount]
+  rw [hdot, hcf, hf1, hcount]
   dsimp only
   have e : (((32 : Nat) : Int) + 1).toNat = 33 := by decide
   rw [e, hf2]
-  by_cases hv : groNameDots a + 3 + dotCount V = 6
+  by_cases hv : 3 + dotCount V = 6
   · simp only [hv, decide_true, if_true]
     constructor
     · trivial
@@ -118,27 +114,30 @@ theorem gro_detect_gen (serial : Nat) (a : Atom) (V : List Char) :
     · trivial
     · decide
 
-/-- **detection of the coordinate width.**  On every atom line `write_gro` produces without
-velocities — whatever the coordinates, overflowing or not, points in the names or not —
-`read_gro` detects 8-column coordinates and no velocities, UNLESS the name columns of that line
-hold exactly three points (then the line has six, the reader's criterion for velocities). -/
-theorem gro_detect (serial : Nat) (a : Atom) (hd : groNameDots a ≠ 3) :
+/-- **detection of the coordinate width.**  On EVERY atom line `write_gro` produces without
+velocities — whatever the coordinates, overflowing or not, whatever the names, points included —
+`read_gro` detects 8-column coordinates and no velocities. -/
+theorem gro_detect (serial : Nat) (a : Atom) :
     (groDetect gro (groLine gro serial a)).slices = groSlices 8 ∧
     (groDetect gro (groLine gro serial a)).hasVel = false := by
   have h := gro_detect_gen serial a []
   simp only [List.append_nil] at h
-  have hne : ¬ (groNameDots a + 3 + dotCount [] = 6) := by
+  have hne : ¬ (3 + dotCount [] = 6) := by
     simp only [dotCount, List.filter_nil, List.length_nil]; omega
   rw [h.1, h.2]
   simp [hne]
 
-/-- … and with exactly three points in the name columns it takes the line for one with velocities -/
-theorem gro_detect_three_dots (serial : Nat) (a : Atom) (hd : groNameDots a = 3) :
-    (groDetect gro (groLine gro serial a)).hasVel = true := by
-  have h := gro_detect_gen serial a []
-  simp only [List.append_nil] at h
-  rw [h.1]
-  simp [hd, dotCount]
+/-- F-C16-4 (repaired in the repository): with the OLD rule — count the points of the whole line —
+the first atom `A.B.` / `C.` (three points in its names, no velocities written) is taken for a line
+with velocities; with the rule in the source now it is not. -/
+theorem gro_detect_old_rule_witness :
+    (groDetect { gro with countFrom := 0 }
+      (groLine gro 1 { exAtom with resname := some "A.B.".toList, atomname := some "C.".toList, resid := some 1 })).hasVel
+      = true ∧
+    (groDetect gro
+      (groLine gro 1 { exAtom with resname := some "A.B.".toList, atomname := some "C.".toList, resid := some 1 })).hasVel
+      = false := by
+  decide +kernel
 
 /-! ## the atom line -/
 
@@ -219,17 +218,9 @@ theorem writeGro_eq (G : GroLayout) : ∀ (sys : List Mol) (start : Nat),
   | [], _ => rfl
   | m :: ms, start => by simp [groMolLines, groPairs, groAtomLines_eq, writeGro_eq G ms]
 
-/-- the first atom line must not hold exactly three points in its name columns (`gro_detect`);
-later lines may -/
-def groFirstOk (ps : List (Nat × Atom)) : Bool :=
-  match ps with
-  | [] => false
-  | p :: _ => groNameDots p.2 != 3
-
-/-- **the precondition of the GRO round trip**: at least one atom, every atom fits its line, the
-FIRST line is not mistaken for one with velocities -/
+/-- **the precondition of the GRO round trip**: at least one atom, every atom fits its line -/
 def FitsGro (excl : List (List Char)) (sys : List Mol) : Bool :=
-  groFirstOk (groPairs 1 sys) && (groPairs 1 sys).all fun p => groAtomFitsB excl p.1 p.2
+  !(groPairs 1 sys).isEmpty && (groPairs 1 sys).all fun p => groAtomFitsB excl p.1 p.2
 
 theorem groLoop_pairs (excl : List (List Char)) (n : Nat) (tail : List (List Char))
     (htail : tail = [] ∨ ∃ b t, tail = b :: t ∧ (readFields readFieldGro b (groSlices 8)).toOption = none) :
@@ -265,17 +256,16 @@ theorem gro_file_roundtrip (excl : List (List Char)) (sys : List Mol) (title : L
     readGro gro excl false (title :: natDigits (writeGro gro sys).length :: (writeGro gro sys ++ tail)) =
       .ok ((groPairs 1 sys).map fun p => gAtomOf p.1 p.2) := by
   unfold FitsGro at hfits
-  simp only [Bool.and_eq_true, List.all_eq_true] at hfits
-  obtain ⟨hfirst, hall⟩ := hfits
+  simp only [Bool.and_eq_true, Bool.not_eq_true', List.isEmpty_eq_false_iff, List.all_eq_true] at hfits
+  obtain ⟨hne, hall⟩ := hfits
   have hw : writeGro gro sys = (groPairs 1 sys).map fun p => groLine gro p.1 p.2 := writeGro_eq gro sys 1
   rw [hw]
   cases hps : groPairs 1 sys with
-  | nil => rw [hps] at hfirst; cases hfirst
+  | nil => exact absurd hps hne
   | cons p ps =>
-    rw [hps] at hall hfirst
+    rw [hps] at hall
     have hp := hall p (by simp)
-    have hd : groNameDots p.2 ≠ 3 := by simpa [groFirstOk] using hfirst
-    obtain ⟨d1, d2⟩ := gro_detect p.1 p.2 hd
+    obtain ⟨d1, d2⟩ := gro_detect p.1 p.2
     have hdet : groDetect gro (groLine gro p.1 p.2) = ⟨groSlices 8, false⟩ := by
       cases hd : groDetect gro (groLine gro p.1 p.2) with
       | mk sl hv => rw [hd] at d1 d2; simp only at d1 d2; rw [d1, d2]
